@@ -128,6 +128,14 @@ def scenarios(tier: str, fix: str = "") -> List[Dict[str, Any]]:
                       [("req", 0), ("req", 1), ("wait", 0), ("wait", 1)], fix))
     S.append(scenario("roomy-measure-buffer-then-create-same-key", 1, [], [M("create", 1, 0, 1, room=2), M("create", 1, 0, 2)], [],
                       [("req", 0), ("wait", 0), ("req", 1), ("wait", 1)], fix))
+    # the virtual qubits of a request listed in non-ascending order, with the package's instruction logger switched on
+    lg = scenario("keep-3-descending-ids-with-instruction-log", 3, [], [K("create", 1, 0, 3, [2, 0, 1])], [], [("req", 0), ("wait", 0)], fix)
+    lg["instr_log"] = True
+    S.append(lg)
+    lg2 = scenario("recv-keep-2-descending-ids-early-with-instruction-log", 2, [], [K("recv", 1, 0, 2, [1, 0])], [dict(remote=1, sock=0, type="K", n=2)],
+                   [("req", 0), ("wait", 0)], fix)
+    lg2["instr_log"] = True
+    S.append(lg2)
     # the link is ahead of the program: three responses of one request wait before the instruction has run
     S.append(scenario("recv-measure-3-early", 1, [], [M("recv", 1, 0, 3)], [dict(remote=1, sock=0, type="M", n=3)],
                       [("nop",), ("req", 0), ("wait", 0)], fix))
